@@ -65,6 +65,13 @@ def native_check(cfg, env=None, seed=0, scale=1.0):
             if z is None or not C.close(z, want[i, j], tol):
                 fails.append(("single element call form disagrees for the pair (%d, %d)" % (i, j), None))
                 break
+    # a flag is a flag whatever object carries it: numpy / tensor booleans and 0 / 1 select the same call form as True / False
+    for name, yes, no in (("numpy.bool_", np.True_, np.False_), ("int", 1, 0), ("0-d bool tensor", torch.tensor(True), torch.tensor(False))):
+        full_y, pair_n = st.rho(space, space, expand=yes), st.rho(space, flip, expand=no)
+        if not torch.equal(full_y, st.rho(space, space, expand=True)) or not torch.equal(pair_n, st.rho(space, flip, expand=False)):
+            fails.append(("rho(..., expand=<%s>) differs from rho(..., expand=True / False)" % name, None))
+        if not torch.equal(st.pi(space, space, expand=yes), st.pi(space, space, expand=True)) or not torch.equal(st.pi(space, flip, expand=no), st.pi(space, flip, expand=False)):
+            fails.append(("pi(..., expand=<%s>) differs from pi(..., expand=True / False)" % name, None))
     rd = st.rho(space, expand=False)
     if tuple(rd.shape) != (2, D) or not C.close(rd[0].numpy(), prob, tol) or np.any(rd[1].numpy() != 0):
         fails.append(("rho(v, expand=False) != [probability, 0]", None))
